@@ -712,3 +712,37 @@ Example order_clause_nonvacuous :
   (forall p, In p (nflatten wide_tree) -> ChildrenOrdered (kid_sets p)) /\
   ~ (forall p, In p (nflatten (merge_tree [1%N; 4%N] false wide_tree)) -> ChildrenOrdered (kid_sets p)).
 Proof. exact children_order_clause_nonvacuous. Qed.
+
+(* ---------- completeness of the checker's building blocks (soundness: wf_check_sound above) ---------- *)
+From HV Require Import Topo.WFComplete.
+
+(* the uniqueness test (PU/NUMA os_index, gp_index) accepts exactly the duplicate-free lists *)
+Theorem uniqueness_test_is_nodup : forall l, nodup_N l = true <-> NoDup l.
+Proof. exact nodup_N_iff. Qed.
+Print Assumptions uniqueness_test_is_nodup.
+
+(* the numbering test accepts exactly the object arrays numbered k, k+1, ... *)
+Theorem numbering_test_is_sequential : forall l k,
+  ids_sequential l k = true <-> (forall i o, nth_error l i = Some o -> o_id o = (k + N.of_nat i)%N).
+Proof. exact ids_sequential_iff. Qed.
+Print Assumptions numbering_test_is_sequential.
+
+(* the disjoint-union test behind "cpuset = disjoint union of the children's cpusets" and the nodeset clause succeeds
+   exactly on pairwise disjoint lists that are disjoint from the accumulator, and then returns the union *)
+Theorem disjoint_union_test_is_pairwise_disjointness : forall l acc,
+  (exists u, disjoint_union l acc = Some u) <->
+  ForallOrdPairs (fun a b => forall i, mem i a = true -> mem i b = true -> False) l /\
+  Forall (fun a => forall i, mem i acc = true -> mem i a = true -> False) l.
+Proof. exact disjoint_union_iff. Qed.
+Print Assumptions disjoint_union_test_is_pairwise_disjointness.
+
+Theorem disjoint_union_test_returns_the_union : forall l acc,
+  ForallOrdPairs (fun a b => forall i, mem i a = true -> mem i b = true -> False) l ->
+  Forall (fun a => forall i, mem i acc = true -> mem i a = true -> False) l ->
+  exists u, disjoint_union l acc = Some u /\ forall i, mem i u = mem i acc || existsb (mem i) l.
+Proof. exact disjoint_union_complete. Qed.
+Print Assumptions disjoint_union_test_returns_the_union.
+
+Theorem set_equality_test_is_equality : forall a b, opt_bset_eqb a b = true <-> a = b.
+Proof. exact opt_bset_eqb_iff. Qed.
+Print Assumptions set_equality_test_is_equality.
